@@ -466,6 +466,9 @@ class ContainerSystem(object):
         ops += [['delta', 0.5], ['delta', 0.34], ['sample_size', 4]]
         if self.kind == 'surface':
             ops += [['tessellate_force']]
+        ops += [['transform', 'translate'], ['transform', 'scale']]
+        if self.kind == 'surface':
+            ops += [['transform', 'transpose']]
         ops += [['edit_element', 'translate'], ['edit_element', 'sample_size']]
         return ops
 
@@ -486,6 +489,13 @@ class ContainerSystem(object):
                 obj.sample_size = op[1]
             elif k == 'tessellate_force':
                 obj.tessellate(force=True)
+            elif k == 'transform':
+                if op[1] == 'translate':
+                    operations.translate(obj, [0.5, -1.0, 2.0], inplace=True)
+                elif op[1] == 'scale':
+                    operations.scale(obj, 2.0, inplace=True)
+                else:
+                    operations.transpose(obj, inplace=True)
             elif k == 'edit_element':
                 if op[1] == 'translate':
                     operations.translate(obj[0], [1.0, 1.0, 1.0], inplace=True)
